@@ -45,7 +45,10 @@ class Known:
             both = s_list and d_list
             single_list = (s_list and len(s.cells) == 1) or (d_list and len(d.cells) == 1)
             if both or single_list:
-                return self._hit('transfer_list_pairing', ('C01', 'C02', 'C07', 'locality'), skip_judge=True)
+                h = self._hit('transfer_list_pairing', ('C01', 'C02', 'C07', 'locality'), skip_judge=True)
+                if h is not None:
+                    h['only_if_raises'] = True      # the finding is that such calls raise; one that returns is judged in full
+                return h
         return None
 
     def match_fill_to(self, bench, ev, t, solvent, unit):
